@@ -475,6 +475,20 @@ Definition y_fin (r : eval_result) : fin :=
   | EvFuel => FinFuel
   end.
 
+(** what Panic.Value carries: the number of reflect.Value layers ([_panic] panics with the
+    reflect.Value of its argument; every re-panic of a recovered value adds one) and the kind of the
+    value inside; a run-time fault is the host's own error value *)
+Inductive vkind := VkInt | VkStr | VkErr | VkFault | VkOther.
+
+Definition y_carrier (r : eval_result) : option (nat * vkind) :=
+  match r with
+  | EvErrPanic (BInt _, d) => Some (S d, VkInt)
+  | EvErrPanic (BStr _, d) => Some (S d, VkStr)
+  | EvErrPanic (BErr _, d) => Some (S d, VkErr)
+  | EvErrPanic (BFault _, d) => Some (d, VkFault)
+  | _ => None
+  end.
+
 Definition y_run (fuel : nat) (p : prog) : list event * fin * bool :=
   let '(tr, r, fl) := y_eval fuel p in
   (tr, y_fin r, fl || match r with EvErrPanic v => wrapped_visible (Some v) | _ => false end).
